@@ -700,6 +700,33 @@ func runTrimSpace(c *vCase) obj {
 // number of cases of this process that ran into their time limit
 var verifTimeouts int
 
+// dispatchWatched runs one case under a watchdog, whatever its mode: code that loops for ever must not stall the batch
+func dispatchWatched(c *vCase) obj {
+	limit := 15 * time.Second
+	if c.TimeoutMs > 0 {
+		reps := c.Reps
+		if reps < 1 {
+			reps = 1
+		}
+		limit = time.Duration(c.TimeoutMs)*time.Millisecond*time.Duration(reps) + 5*time.Second
+	}
+	done := make(chan obj, 1)
+	go func() {
+		defer func() {
+			if r := recover(); r != nil {
+				done <- obj{"status": "panic", "r": "panic", "text": hx([]byte(fmt.Sprint(r))), "out": ""}
+			}
+		}()
+		done <- dispatch(c)
+	}()
+	select {
+	case res := <-done:
+		return res
+	case <-time.After(limit):
+		return obj{"status": "timeout", "r": "timeout", "out": ""}
+	}
+}
+
 func verifMain() {
 	in := bufio.NewReaderSize(os.Stdin, 1<<20)
 	out := bufio.NewWriter(os.Stdout)
@@ -711,11 +738,11 @@ func verifMain() {
 			var res obj
 			if jerr := json.Unmarshal(line, &c); jerr != nil {
 				res = obj{"status": "driver-error", "error": jerr.Error()}
-			} else if verifTimeouts >= 3 && c.Mode == "app" {
+			} else if verifTimeouts >= 3 {
 				// goroutines of timed-out cases are still spinning: do not start more work on top of them
-				res = obj{"status": "timeout", "out": "", "text": hx([]byte("not run: three cases of this batch had timed out")), "id": c.ID}
+				res = obj{"status": "timeout", "r": "timeout", "out": "", "text": hx([]byte("not run: three cases of this batch had timed out")), "id": c.ID}
 			} else {
-				res = dispatch(&c)
+				res = dispatchWatched(&c)
 				res["id"] = c.ID
 				if res["status"] == "timeout" {
 					verifTimeouts++
